@@ -442,6 +442,7 @@ def run(ctx, name, kind, **kw):
         names = {"is_prime", "next_prime", "factorization", "gcd", "lcm", "gcd2", "lcm2"}
         S.concurrent_purity(ctx, S.codes_of(NT, names), jobs, rng, kw["runs"])
         S.reentrant_purity(ctx, S.codes_of(NT, names), jobs, rng, max(12, kw["runs"] // 6))
+        S.fault_purity(ctx, S.codes_of(NT, names), jobs, rng, max(12, kw["runs"] // 6))
         # the functions that WRITE module-level state (is_prime keeps a global round count): every placement of one preemption, sampled
         # placements of two, for a composite tested next to a prime (either may be the thread that is suspended)
         wr = S.stateful_codes(NT, writers_only=True)
